@@ -53,6 +53,11 @@ def correspondence(r):
     ex2 = [dict(c, version=v) for c in exc[:: 3] for v in ([3, 11], [3, 12], [3, 13])]
     C.correspond(r, "exc_bytecode", HEADER, "exc_bytecode", ex2, lambda c: f"obs_exc {C.blist(c['tab'])}", modules=MODS,
                  describe=describe("Bytecode.exception_entries"))
+    # the same entries through Bytecode on the oldest and the newest host that can import xdis: the table belongs to the bytecode's version,
+    # not to the interpreter running xdis
+    for h in ("3.8", "3.13"):
+        C.correspond(r, "exc_bytecode_host" + h.replace(".", ""), HEADER, "exc_bytecode", ex2[:: 2], lambda c: f"obs_exc {C.blist(c['tab'])}", modules=MODS, host=C.HOSTS[h],
+                     describe=describe(f"Bytecode.exception_entries on a {h} host"))
     # the "ExceptionTable:" section of a listing: one line per entry, in order, with start, inclusive end, target, depth, lasti
     ex3 = [c for c in ex2 if c["kind"] == "wellformed"]
     C.correspond(r, "exc_render", HEADER, "exc_render", ex3, lambda c: f"obs_exc_text {C.blist(c['tab'])}", modules=MODS,
